@@ -1102,3 +1102,126 @@ func poolAliasRule(c *Ctx, rule string) {
 	}
 	c.R.Hold(rule, "pooled buffers do not outlive their Put", "", sprintf("%d function(s) using a sync.Pool examined", pools))
 }
+
+// poolResetRule: an object that goes back into a sync.Pool is handed to the next user as it is. Every Put of a value
+// taken from a pool in the same function is therefore preceded, on every path, by a reset of that value made after the
+// Get — a Reset()/Truncate call on it or an assignment of a whole new value through the pointer. A path that puts the
+// object back uncleared (typically an early error return) lets the next request see this request's data.
+func poolResetRule(c *Ctx, rule string) {
+	n := 0
+	for _, fn := range c.P.LibFns {
+		var gets []*ssa.Call
+		var puts []ssa.CallInstruction
+		ir.EachInstr(fn, func(_ *ssa.BasicBlock, _ int, in ssa.Instruction) {
+			if call, ok := in.(ssa.CallInstruction); ok {
+				switch ir.CallName(call) {
+				case "(*sync.Pool).Get":
+					if cc, ok := call.(*ssa.Call); ok {
+						gets = append(gets, cc)
+					}
+				case "(*sync.Pool).Put":
+					puts = append(puts, call)
+				}
+			}
+		})
+		if len(gets) == 0 || len(puts) == 0 {
+			continue
+		}
+		// the pooled values: the Get results and their type assertions
+		pooled := map[ssa.Value]*ssa.Call{}
+		for _, g := range gets {
+			work := []ssa.Value{g}
+			for len(work) > 0 {
+				v := work[0]
+				work = work[1:]
+				if _, seen := pooled[v]; seen {
+					continue
+				}
+				pooled[v] = g
+				if v.Referrers() == nil {
+					continue
+				}
+				for _, r := range *v.Referrers() {
+					switch y := r.(type) {
+					case *ssa.TypeAssert:
+						work = append(work, y)
+					case *ssa.Extract:
+						work = append(work, y)
+					case *ssa.Phi:
+						work = append(work, y)
+					}
+				}
+			}
+		}
+		// resets
+		var resets []ssa.Instruction
+		ir.EachInstr(fn, func(_ *ssa.BasicBlock, _ int, in ssa.Instruction) {
+			switch x := in.(type) {
+			case *ssa.Store:
+				if _, ok := pooled[x.Addr]; ok {
+					resets = append(resets, in) // *p = T{}
+				}
+			case ssa.CallInstruction:
+				cc := x.Common()
+				nm := ""
+				if cc.IsInvoke() {
+					nm = cc.Method.Name()
+				} else if sc := ir.StaticCallee(x); sc != nil {
+					nm = sc.Name()
+				}
+				if (nm == "Reset" || nm == "Truncate") && len(cc.Args) > 0 {
+					recv := cc.Value
+					if !cc.IsInvoke() {
+						recv = cc.Args[0]
+					}
+					if _, ok := pooled[recv]; ok {
+						if _, isDefer := in.(*ssa.Defer); !isDefer {
+							resets = append(resets, in)
+						}
+					}
+				}
+			}
+		})
+		cnt := 0
+		for _, p := range puts {
+			args := p.Common().Args
+			if len(args) < 2 {
+				continue
+			}
+			v := args[1]
+			for {
+				if mi, ok := v.(*ssa.MakeInterface); ok {
+					v = mi.X
+					continue
+				}
+				break
+			}
+			g, ok := pooled[v]
+			if !ok {
+				continue // a new object offered to the pool
+			}
+			n++
+			cnt++
+			okReset := false
+			_, deferred := p.(*ssa.Defer)
+			for _, r := range resets {
+				if !flow.Dominates(g, r) {
+					continue
+				}
+				if flow.Dominates(r, p.(ssa.Instruction)) {
+					okReset = true
+				}
+				// `defer pool.Put(x); x.Reset()`: the Put runs at exit, the reset right after the defer statement
+				if deferred && r.Block() == p.Block() {
+					okReset = true
+				}
+			}
+			c.R.Check(okReset, rule, sprintf("pooled object put back by %s #%d is reset", fname(fn), cnt), c.Pos(p.Pos()),
+				"reset after the Get on every path to this Put",
+				sprintf("%s puts an object it took from a sync.Pool back without resetting it on every path to this Put (an early return): the next call that takes it from the pool — usually on behalf of another client — starts from this call's data", fname(fn)))
+		}
+	}
+	if n == 0 {
+		c.R.Hold(rule, "no function recycles objects through a sync.Pool", "", "")
+	}
+}
